@@ -406,6 +406,59 @@ def pmap(fn, jobs, procs=14):
     return out
 
 
+def fresh_map(fn, jobs, procs=14, timeout=600):
+    """Run fn(job) for every job, each in a freshly forked child of THIS process,
+    so that whatever a job leaves behind in process-wide state (module caches,
+    singletons, class attributes) cannot reach another job: histories are
+    self-contained and their replay files reproduce.  Results come back pickled
+    over a pipe; a child that dies is a machinery failure."""
+    import os
+    import pickle
+    import select
+    import time
+
+    out = [None] * len(jobs)
+    running = {}  # fd -> (idx, pid, chunks, started)
+    nxt = 0
+    gc.collect()
+    while nxt < len(jobs) or running:
+        while nxt < len(jobs) and len(running) < procs:
+            r, w = os.pipe()
+            pid = os.fork()
+            if pid == 0:
+                code = 0
+                try:
+                    os.close(r)
+                    data = pickle.dumps(fn(jobs[nxt]))
+                    with os.fdopen(w, 'wb') as f:
+                        f.write(data)
+                except BaseException:
+                    code = 3
+                finally:
+                    os._exit(code)
+            os.close(w)
+            running[r] = (nxt, pid, [], time.time())
+            nxt += 1
+        ready, _, _ = select.select(list(running), [], [], 1.0)
+        for fd in ready:
+            b = os.read(fd, 1 << 16)
+            idx, pid, chunks, t0 = running[fd]
+            if b:
+                chunks.append(b)
+                continue
+            os.close(fd)
+            del running[fd]
+            _, status = os.waitpid(pid, 0)
+            if status != 0 or not chunks:
+                raise MachineryError(f'a fresh-process worker died (status {status}) on job {idx}')
+            out[idx] = pickle.loads(b''.join(chunks))
+        for fd, (idx, pid, chunks, t0) in list(running.items()):
+            if time.time() - t0 > timeout:
+                os.kill(pid, 9)
+                raise MachineryError(f'a fresh-process worker exceeded {timeout} s on job {idx}')
+    return out
+
+
 def replay_store(ctx, behaviours, pid: str, big=False, cache_mb=None):
     """Replay behaviours (in parallel worker processes); report deviations
     belonging to property pid."""
